@@ -287,6 +287,32 @@ func buildOps() []op {
 			h.hold(&held{kind: "stmts", desc: "recovered", val: stmts, release: func() { sqlast.ReleaseStatements(stmts) }})
 			h.sameAsFresh("ParseWithRecovery", h.held[len(h.held)-1].snap, h.ref.recovered)
 		}},
+		// a batch: every tree of the result belongs to the caller on its own, also when texts repeat within the batch
+		op{name: "PM", class: "ParseMultiple", run: func(h *histState) {
+			batch := []int{0, 3, 0}
+			qs := make([]string, len(batch))
+			for i, k := range batch {
+				qs[i] = queries[k]
+			}
+			trees, err := gosqlx.ParseMultiple(qs)
+			if err != nil || len(trees) != len(batch) {
+				h.c.Outcome("batch-rejected")
+				return
+			}
+			for i, tree := range trees {
+				tree := tree
+				h.hold(&held{kind: "tree", desc: fmt.Sprintf("batch[%d]=q%d", i, batch[i]), val: tree, release: func() { sqlast.ReleaseAST(tree) }})
+				h.sameAsFresh("ParseMultiple", h.held[len(h.held)-1].snap, h.ref.trees[batch[i]])
+			}
+		}, nodes: func(r *reference) map[reflect.Type]int {
+			out := map[reflect.Type]int{}
+			for _, k := range []int{0, 3, 0} {
+				for t, n := range r.treeNodes[k] {
+					out[t] += n
+				}
+			}
+			return out
+		}},
 		op{name: "T", class: "Tokenize", run: func(h *histState) {
 			tkz := tokenizer.GetTokenizer()
 			toks, err := tkz.Tokenize([]byte(tokenQuery))
@@ -461,11 +487,14 @@ func enumerateHistories(e *common.Enum, targets []*cleanTarget, pooled map[refle
 			saveTrees, saveToks := append([]byte(nil), trees...), toks
 			ok := true
 			switch n := ops[k].name; {
-			case n[0] == 'P':
+			case n[0] == 'P' && n != "PM":
 				if ref.trees[k] == "" {
 					ok = false
 				}
 				trees = append(trees, 't')
+			case n == "PM":
+				ok = ref.trees[0] != "" && ref.trees[3] != ""
+				trees = append(trees, 't', 't', 't')
 			case n == "W":
 				ok = ref.recOK
 				trees = append(trees, 's')
